@@ -12,12 +12,21 @@
      concept_lattice.py : ConceptLattice.write_json / read_json
 
    [JDoc v] is a JSON *string* whose content is json.dumps(v): the pattern-structure codecs nest
-   JSON text inside JSON.  [JFlt z] is the float z / 1024 (floats are never computed with). *)
+   JSON text inside JSON.  A float is an [fnum]: the finite value z / 1024, or +inf / -inf (Python's
+   json writes the latter as Infinity / -Infinity and reads them back); floats are never computed with. *)
 From FCA Require Export Base.C07_Str.
 From Coq Require Export ZArith.
 
+Inductive fnum := FFin (z : Z) | FPosInf | FNegInf.
+Definition fnum_eqb (a b : fnum) : bool :=
+  match a, b with
+  | FFin x, FFin y => Z.eqb x y
+  | FPosInf, FPosInf | FNegInf, FNegInf => true
+  | _, _ => false
+  end.
+
 Inductive jv :=
-| JNull | JBool (b : bool) | JInt (z : Z) | JFlt (z : Z) | JStr (s : str)
+| JNull | JBool (b : bool) | JInt (z : Z) | JFlt (x : fnum) | JStr (s : str)
 | JArr (l : list jv) | JObj (l : list (str * jv)) | JDoc (v : jv).
 
 Fixpoint jv_eqb (a b : jv) : bool :=
@@ -25,7 +34,7 @@ Fixpoint jv_eqb (a b : jv) : bool :=
   | JNull, JNull => true
   | JBool x, JBool y => Bool.eqb x y
   | JInt x, JInt y => Z.eqb x y
-  | JFlt x, JFlt y => Z.eqb x y
+  | JFlt x, JFlt y => fnum_eqb x y
   | JStr x, JStr y => str_eqb x y
   | JArr x, JArr y =>
       (fix go (x y : list jv) : bool :=
@@ -282,14 +291,15 @@ Definition ptype_of_name (s : str) : sres ptype :=
   else if str_eqb s s_AttributePS then SOk PAttr else if str_eqb s s_IntervalNumpyPS then SOk PIntervalNp
   else SErr EType.     (* pattern_types[v] with pattern_types = None *)
 
-(* a description / a data cell: interval (floats on the 1/1024 grid), set of integers (kept as a
+(* a description / a data cell: interval (end points on the 1/1024 grid or infinite, of either sign
+   on either side: (inf, inf) is the value +inf), set of integers (kept as a
    strictly increasing list), boolean, or None (only as an interval description) *)
-Inductive cellv := CNone | CInterval (lo hi : Z) | CSet (l : list Z) | CBool (b : bool).
+Inductive cellv := CNone | CInterval (lo hi : fnum) | CSet (l : list Z) | CBool (b : bool).
 
 Definition cellv_eqb (a b : cellv) : bool :=
   match a, b with
   | CNone, CNone => true
-  | CInterval a1 a2, CInterval b1 b2 => Z.eqb a1 b1 && Z.eqb a2 b2
+  | CInterval a1 a2, CInterval b1 b2 => fnum_eqb a1 b1 && fnum_eqb a2 b2
   | CSet x, CSet y =>
       (fix go (x y : list Z) : bool :=
          match x, y with
